@@ -290,7 +290,7 @@ def tla_set(strs):
 
 
 CTX_INVS = ["ScanEqualsDeclarative", "NotApplOnlyForeign", "UndefinedOnlyOutside", "RegistryMatchesProperty",
-            "RegisteredRuleApplies", "StdClassesSound"]
+            "RegisteredRuleApplies", "StdClassesSound", "CtxPadLaw", "AllowsPadLaw"]
 
 
 def C03(chk):
@@ -304,6 +304,7 @@ def C03(chk):
     generic_mc(chk, "MC_Context", "neighbours", ["keraia", "grk", "GRK", "geresh", "heb", "hpt", "a", "l", "mdot"],
                {"MaxLen": n - 1 if q else n, "Rules": tla_set(["keraia", "hebrew", "middle_dot", "zwj"])}, CTX_INVS, insts)
     apply_l1(chk, ["reg", "vir", "greek", "hebrew", "kana", "ld", "rd", "md", "aidx", "eaidx", "own"], nontrivial_key="ctx")
+    long_run(chk, profiles=["OPQ"], ops=["prepare"], ctx=True, max_bytes=3000, name="long-ctx")
     l3_run(chk, "context", strings=1200 if q else 8000, per_string=4, kinds=["ctx", "ctx", "ctx", "allows"])
     chk.cov["exhaustive"] = True
     chk.cov["rule"] = ("every label of length <= %d over three generated alphabets (joiners with L/D/R/T/U joining types and a virama; "
@@ -335,6 +336,7 @@ def C02(chk):
                {"MaxLen": 4 if q else 5, "FreeSyms": lambda ch: "{%d, %d}" % (ch["eaid"], ch["kmdot"])}, sc_invs, (0,))
     apply_l1(chk, ["reg", "id", "ff", "vir", "greek", "hebrew", "kana", "ld", "rd", "md", "aidx", "eaidx", "own"], nontrivial_key="ctx")
     l3_run(chk, "allows-runs", driver="runs", per_string=2, kinds=["allows", "ctx"], seed_offset=3)
+    long_run(chk, profiles=["UCP", "OPQ"], ops=["prepare"], ctx=True, max_bytes=3000, name="long-ctx")
     l3_run(chk, "allows", strings=600 if q else 8000, per_string=2, kinds=["allows"])
     chk.cov["exhaustive"] = True
     chk.cov["rule"] = ("user-supplied classes: every assignment of the 7 property values to %d free multi-byte symbols x every label of "
